@@ -671,4 +671,115 @@ Proof.
   destruct H as (s'' & H1 & H2 & H3 & H4 & H5). rewrite (H5 Hg) in *. split; assumption.
 Qed.
 
+(* ---- sequences of records ---- *)
+Lemma drive_all_final s d : is_final s = true -> drive_all norm maxc s d = DOk d s [].
+Proof.
+  intros H. unfold drive_all, drive_fuel. replace (2 * length d + 4)%nat with (S (2 * length d + 3)) by lia.
+  cbn [drive]. rewrite H. reflexivity.
+Qed.
+
+Lemma bytes_ok_enc_rcds rs : Forall rcd_ok rs -> bytes_ok (enc_rcds rs).
+Proof.
+  induction 1 as [|r t Hr _ IH]; [constructor|]. cbn [enc_rcds flat_map]. apply bytes_ok_app.
+  split; [apply bytes_ok_enc_rcd; exact Hr|exact IH].
+Qed.
+
+Lemma enc_rcds_cons r t : enc_rcds (r :: t) = enc_rcd r ++ enc_rcds t.
+Proof. reflexivity. Qed.
+
+Lemma enc_rcds_app a b : enc_rcds (a ++ b) = enc_rcds a ++ enc_rcds b.
+Proof. unfold enc_rcds. apply flat_map_app. Qed.
+
+Lemma enc_rcds_ne rs : rs <> [] -> enc_rcds rs <> [].
+Proof.
+  destruct rs as [|r t]; [congruence|]. intros _. rewrite enc_rcds_cons. apply len_pos_ne.
+  rewrite len_app, len_enc_rcd. lia.
+Qed.
+
+(* folding rec_step over a record list, from a (settled) record boundary; [fits] is an arbitrary
+   side condition on (state, record), used later for the buffer bound *)
+Inductive run (fits : state -> rcd -> Prop) : state -> list rcd -> state -> bytes -> Prop :=
+| run_nil s : run fits s [] s []
+| run_cons s r s' t s2 o ph :
+    boundary_phase s = Some ph -> rcd_ok r -> fits s r -> rec_step norm s r = RNext s' ->
+    run fits s' t s2 o -> run fits s (r :: t) s2 (reply_for maxc ph r ++ o).
+
+Lemma run_app fits s a s1 o1 b s2 o2 :
+  run fits s a s1 o1 -> run fits s1 b s2 o2 -> run fits s (a ++ b) s2 (o1 ++ o2).
+Proof.
+  induction 1 as [s|s r s' t s1 o ph Hb Hr Hf Hs _ IH]; intros H2; [exact H2|].
+  cbn [app]. rewrite <- app_assoc. econstructor; eauto.
+Qed.
+
+Lemma run_weaken (fits fits' : state -> rcd -> Prop) s rs s2 o :
+  (forall s r, fits s r -> fits' s r) -> run fits s rs s2 o -> run fits' s rs s2 o.
+Proof. intros Hw. induction 1; econstructor; eauto. Qed.
+
+Lemma run_rcd_ok fits s rs s2 o : run fits s rs s2 o -> Forall rcd_ok rs.
+Proof. induction 1; constructor; assumption. Qed.
+
+Lemma boundary_settled s ph : boundary_phase s = Some ph -> settle s = s /\ is_final s = false.
+Proof.
+  destruct s as [| p q | v p q | i p q | i p q | i v p q | rq p q | rq | e]; cbn [boundary_phase]; try discriminate;
+    intros _; split; reflexivity.
+Qed.
+
+Lemma settle_final s : is_final (settle s) = false -> is_final s = false.
+Proof. destruct s; try reflexivity; cbn [settle is_final]; intros H; exact H. Qed.
+
+Lemma gv_empty_step s r ph : boundary_phase s = Some ph -> gv_empty r -> rec_step norm s r = RNext s.
+Proof.
+  intros Hb (Ht & Hid & _). unfold rec_step.
+  destruct s as [| p q | v p q | i p q | i p q | i v p q | rq p q | rq | e]; cbn [boundary_phase] in Hb;
+    try discriminate.
+  - rewrite Ht. reflexivity.
+  - destruct p as [|p]; [destruct q as [|q]|]; try discriminate. rewrite Ht. reflexivity.
+Qed.
+
+(* item 2: the drive loop on a whole record sequence *)
+Lemma run_drive fits s0 rs s2 o : run fits s0 rs s2 o -> rs <> [] ->
+  forall s, state_ok s -> settle s = s0 -> sbuf s + len (enc_rcds rs) < SIZE_LIMIT ->
+  exists s'', drive_all norm maxc s (enc_rcds rs) = DOk [] s'' o /\ settle s'' = s2 /\ state_ok s'' /\
+              sbuf s'' <= sbuf s + len (enc_rcds rs) /\ (is_final s2 = true -> s'' = s2).
+Proof.
+  induction 1 as [s0|s0 r s' t s2 o ph Hb Hr Hf Hs Ht IH]; intros Hne s Hok Hse Hsz; [congruence|].
+  rewrite enc_rcds_cons in *. rewrite len_app in Hsz.
+  assert (Hsm : state_small s) by (apply state_small_sbuf; lia).
+  pose proof (rec_step_settle s r ph Hok Hsm) as H1. rewrite Hse in H1. specialize (H1 Hb Hr).
+  rewrite Hs in H1. destruct H1 as (s1 & Hd & Hs1 & Hok1 & Hb1 & Hex).
+  assert (Hbl : len (rbody r) <= len (enc_rcd r)) by (rewrite len_enc_rcd; lia).
+  destruct t as [|r2 t'].
+  - assert (E2 : s' = s2 /\ o = []) by (inversion Ht; split; reflexivity).
+    destruct E2 as [E2 ->]. cbn [enc_rcds flat_map]. rewrite !app_nil_r. exists s1.
+    rewrite <- E2. repeat split; try assumption; [lia|].
+    intros Hfin. apply Hex. intros Hg. rewrite (gv_empty_step _ _ _ Hb Hg) in Hs. injection Hs as E3.
+    destruct (boundary_settled _ _ Hb) as [_ Hnf]. congruence.
+  - assert (Hne2 : r2 :: t' <> []) by discriminate.
+    destruct (IH Hne2 s1 Hok1 Hs1 ltac:(lia)) as (s3 & Hd3 & Hs3 & Hok3 & Hb3 & Hfin3).
+    exists s3. rewrite HA; try assumption.
+    + rewrite Hd. cbn [app]. rewrite Hd3. repeat split; try assumption. rewrite len_app. lia.
+    + apply bytes_ok_enc_rcd; exact Hr.
+    + apply bytes_ok_enc_rcds. apply (run_rcd_ok _ _ _ _ _ Ht).
+    + apply enc_rcds_ne; exact Hne2.
+    + rewrite len_app. lia.
+Qed.
+
+(* ... and a finished request absorbs nothing: whatever follows is returned untouched *)
+Lemma run_drive_done fits s0 rs rq o extra : run fits s0 rs (Done rq) o -> rs <> [] ->
+  forall s, state_ok s -> settle s = s0 -> bytes_ok extra -> sbuf s + len (enc_rcds rs ++ extra) < SIZE_LIMIT ->
+  drive_all norm maxc s (enc_rcds rs ++ extra) = DOk extra (Done rq) o.
+Proof.
+  intros Hrun Hne s Hok Hse Hx Hsz. rewrite len_app in Hsz.
+  destruct (run_drive _ _ _ _ _ Hrun Hne s Hok Hse ltac:(lia)) as (s3 & Hd & _ & _ & _ & E).
+  specialize (E eq_refl).
+  subst s3. destruct extra as [|b extra'].
+  - rewrite app_nil_r. exact Hd.
+  - rewrite HA; try assumption.
+    + rewrite Hd. cbn [app]. rewrite drive_all_final by reflexivity. rewrite app_nil_r. reflexivity.
+    + apply state_small_sbuf. lia.
+    + apply bytes_ok_enc_rcds. apply (run_rcd_ok _ _ _ _ _ Hrun).
+    + discriminate.
+    + rewrite len_app. lia.
+Qed.
+
 End Records.
